@@ -1002,6 +1002,9 @@ def r_heurcall(ctx):
                 if why:
                     ctx.ob("R-HEURCALL", "PEP.%s::%s as given" % (fn0.name, p0), False,
                            "%s replaces a value of `%s` that is falsy: an explicit 0 silently becomes the default" % (why, p0), loc(fn0, s0))
+                elif not (isinstance(v0, ast.Call) and isinstance(v0.func, ast.Name) and v0.func.id == "float" and len(v0.args) == 1 and dotted(v0.args[0]) == p0):
+                    ctx.ob("R-HEURCALL", "PEP.%s::%s as given" % (fn0.name, p0), False,
+                           "`%s` replaces the caller's `%s`: the heuristic then works with another number than the stated one" % (norm_stmt(s0)[:70], p0), loc(fn0, s0))
     heur = [c for c in ast.walk(root) if isinstance(c, ast.Call) and call_name(c) == "heuristic"]
     for c in heur:
         a = c.args[0] if c.args else None
